@@ -217,4 +217,43 @@ func runC19(c *explore.Ctx) {
 		}
 		s.WallS = time.Since(t0).Seconds()
 	}
+	// comments are kept in the tree (Comment fields): a comment in front of any token must not
+	// change what the document decodes to
+	s = c.Sub("comments", fmt.Sprintf("the %d profile documents and the %d decorated selections (alone and after a plain field) with a comment at every gap, one gap at a time and at every gap at once", len(gen.ExecProfiles), len(c19Items)),
+		"as above", "every rendering")
+	if s != nil {
+		t0 := time.Now()
+		var docs []string
+		docs = append(docs, gen.ExecProfiles...)
+		for _, a := range c19Items {
+			docs = append(docs, "query ( $v : Int = 1 @d ) { "+a+" }", "{ w { z "+a+" } } fragment F ( $fv : Int ) on T @d { "+a+" }")
+		}
+		idx := 0
+		for _, doc := range docs {
+			toks := tokenTextsNoComments(doc)
+			all := map[int]string{}
+			for g := 0; g <= len(toks); g++ {
+				all[g] = " #c\n "
+				idx++
+				if idx%c.NShards != c.Shard {
+					continue
+				}
+				text := renderGapsSep(toks, map[int]string{g: " #c\n "})
+				if !sameTokens(text, toks) {
+					s.Skipped++
+					continue
+				}
+				s.States++
+				c19Case(c, s, text)
+			}
+			idx++
+			if idx%c.NShards == c.Shard {
+				if text := renderGapsSep(toks, all); sameTokens(text, toks) {
+					s.States++
+					c19Case(c, s, text)
+				}
+			}
+		}
+		s.WallS = time.Since(t0).Seconds()
+	}
 }
